@@ -1,5 +1,6 @@
 """C09 — Derivate(curve) is the derivative of the curve."""
 from common import *  # noqa: F401,F403
+import units
 
 RULE = ("random curves: Bezier, multi-span, repeated interior knots up to multiplicity degree+1, degree 0, polynomial and rational, scalar and "
         "vector points, exact rational data.  Non-trivial: degree >= 2 or an interior knot; distinct = distinct curves."
@@ -18,6 +19,7 @@ def run_case(ctx, case):
     rec.case(case, nontrivial=nontrivial_kv(U))
     rec.count("shape", ("bezier" if len(knots) == 2 else "spline") + ("-rational" if W is not None else ""))
     rec.count("degree", str(p))
+    units.tie_derivmat(rec, drv, case, U)              # the difference matrix of the derivative theorems
     curve = make_curve(U, P, W, intknots=bool(c.get("intknots")))
     rec.count("knots", "int" if c.get("intknots") else "fraction")
     start = curve_state(curve)
